@@ -45,6 +45,7 @@ CONSTANTS
   BestBeforeClear = FALSE
   EofLoops = FALSE
   ParserPanics = FALSE
+VIEW TView
 CONSTRAINT Progress
 POSTCONDITION Post
 CHECK_DEADLOCK FALSE
@@ -142,20 +143,32 @@ def limit_combo(rng):
     return ' '.join(parts), timed
 
 
-def session_c09(rng, fens):
+ZERO_BUDGETS = ['nodes 1', 'movetime 0', 'wtime 0 btime 0', 'nodes 2 depth 3', 'wtime 1 btime 1 winc 0 binc 0']
+
+
+def session_c09(rng, fens, directed=None):
     e = Engine()
     try:
-        n = rng.randint(1, 5)
-        for _ in range(n):
-            fen = rng.choice(fens)
+        n = rng.randint(1, 5) if directed is None else len(ZERO_BUDGETS)
+        for i in range(n):
+            fen = rng.choice(fens) if directed is None else directed
             e.send('position fen ' + fen)
             args, timed = limit_combo(rng)
+            if directed is not None:
+                # the smallest budgets on every seed position (in check, pinned pieces, one legal move, ...)
+                args, timed = ZERO_BUDGETS[i], True
+            elif rng.random() < 0.12:
+                # the opponent has a lot of time, the mover almost none: the answer must come at once
+                big, small = rng.choice([40000, 60000]), rng.choice([0, 10, 200])
+                black = fen.split()[1] == 'b'
+                args = 'wtime %d btime %d' % ((big, small) if black else (small, big))
+                timed = True
             e.send('go ' + args)
             # controller deadline: generous for pure depth/node limits, allowed+allowance (+margin) otherwise
             lim = parse_go(args.split())[0]
             z = lambda v: max(v, 0)
             tl = max(z(lim['movetime']), z(lim['wtime']) + z(lim['winc']), z(lim['btime']) + z(lim['binc']))
-            bm = e.wait_for('bestmove', (2700 + tl) if timed else 30000)
+            bm = e.wait_for('bestmove', min(9000, 2700 + tl) if timed else 30000)
             if bm is None:
                 e.log({'ev': 'deadline', 'what': 'bestmove', 't': e.now()})
                 return e.events
@@ -220,6 +233,26 @@ def session_c10(rng, fens):
         if e.wait_for('readyok', 2500) is None:
             e.log({'ev': 'deadline', 'what': 'readyok', 't': e.now()})
             return e.events
+        e.send('quit')
+        e.wait_exit(2500)
+        return e.events
+    finally:
+        e.kill()
+
+
+def session_hammer(rng, fens):
+    """a stop at a random moment of a running search, many times over"""
+    e = Engine()
+    try:
+        if rng.random() < 0.7:
+            e.send('position fen ' + rng.choice(fens))
+        for _ in range(12):
+            e.send('go infinite')
+            time.sleep(rng.uniform(0.0003, 0.004))
+            e.send('stop')
+            if e.wait_for('bestmove', 2500) is None:
+                e.log({'ev': 'deadline', 'what': 'bestmove', 't': e.now()})
+                return e.events
         e.send('quit')
         e.wait_exit(2500)
         return e.events
@@ -298,16 +331,31 @@ def junk_line(rng, fens):
     return ' '.join(rng.choice(VOCAB) for _ in range(rng.randint(1, 6)))
 
 
-def session_c15(rng, fens):
+GO_KW = ['searchmoves', 'ponder', 'wtime', 'btime', 'winc', 'binc', 'movestogo', 'depth', 'nodes', 'mate', 'movetime', 'infinite']
+
+
+def systematic_lines():
+    """every go keyword as the last token, with a junk value, after another argument; setoption and position shapes"""
+    out = []
+    for kw in GO_KW:
+        out += ['go ' + kw, 'go depth 1 ' + kw, 'go wtime 1000 btime 1000 ' + kw, 'go %s %s' % (kw, kw)]
+        out += ['go %s %s' % (kw, j) for j in JUNK_NUM if j]
+    out += ['setoption name Hash value 16', 'setoption name value x', 'setoption value 3 name Hash', 'setoption name', 'setoption',
+            'setoption name Move Overhead value', 'setoption value', 'setoption name name name', 'setoption value name', 'setoption name Clear Hash',
+            'position', 'position fen', 'position startpos moves', 'position moves e2e4', 'position fen moves', 'uci', 'ucinewgame', 'stop', '', '   ']
+    return out
+
+
+def session_c15(rng, fens, lines=None):
     e = Engine()
     try:
-        n = rng.randint(4, 18)
+        n = rng.randint(4, 18) if lines is None else len(lines)
         end_by_close = rng.random() < 0.5
-        close_at = rng.randint(0, n) if end_by_close else None
+        close_at = rng.randint(0, n) if (end_by_close and lines is None) else None
         for i in range(n):
             if close_at is not None and i == close_at:
                 break
-            line = junk_line(rng, fens)
+            line = junk_line(rng, fens) if lines is None else lines[i]
             toks = line.split()
             if toks and toks[0] == 'quit':
                 continue
@@ -315,7 +363,7 @@ def session_c15(rng, fens):
                 # the GUI cannot tell whether the engine takes this go; keep the discipline with a stop
                 e.send(line, cls='go_maybe')
                 e.send('stop')
-                e.wait_for('bestmove', 1500)      # either an answer or nothing (refused line)
+                e.wait_for('bestmove', 250)       # either an answer or nothing (refused line); a late answer is still matched
             elif toks and toks[0] == 'position':
                 e.send(line, cls='position' if Engine.classify(toks) == 'position' else 'junk')
             else:
@@ -326,6 +374,10 @@ def session_c15(rng, fens):
                 e.drain(50)
                 return e.events
         if end_by_close:
+            if rng.random() < 0.3:
+                # end of input while a search is running: the engine must still terminate
+                e.send('go infinite')
+                e.drain(rng.choice([0, 5, 30]))
             e.close_stdin()
         else:
             e.send('quit')
@@ -343,7 +395,7 @@ def random_game_moves(rng, n):
 
 
 DRIVERS = {'C09': session_c09, 'C10': session_c10, 'C14': session_c14, 'C15': session_c15}
-SESSIONS = {'C09': (90, 7000), 'C10': (100, 5000), 'C14': (70, 2500), 'C15': (300, 30000)}
+SESSIONS = {'C09': (90, 7000), 'C10': (100, 5000), 'C14': (70, 2500), 'C15': (220, 30000)}
 PAR = {'C09': 4, 'C10': 4, 'C14': 4, 'C15': 8}
 
 
@@ -410,8 +462,19 @@ def run_process_level(prop, tier, seed, verdict, cov):
 
     def one(s):
         return driver(random.Random(s), fens)
+    jobs = [(one, s) for s in seeds]
+    if prop == 'C09':
+        dirs = fens if tier == 'thorough' else random.Random(seed).sample(fens, min(len(fens), 60))
+        jobs += [((lambda f: session_c09(random.Random(seed), fens, directed=f)), f) for f in dirs]
+    if prop == 'C15':
+        sysl = systematic_lines()
+        jobs += [((lambda ls: session_c15(random.Random(seed), fens, lines=ls)), sysl[i:i + 12]) for i in range(0, len(sysl), 12)]
+    if prop == 'C10':
+        nh = 150 if tier == 'quick' else 3000
+        jobs += [((lambda s: session_hammer(random.Random(s), fens)), rng.randrange(1 << 30)) for _ in range(nh)]
     with cf.ThreadPoolExecutor(max_workers=PAR[prop]) as ex:
-        sessions = list(ex.map(one, seeds))
+        sessions = list(ex.map(lambda j: j[0](j[1]), jobs))
+    nsess = len(sessions)
     log('[%s] %d engine sessions recorded in %.1fs' % (prop, nsess, time.time() - t0))
     per = 10 if prop != 'C15' else 25
     files = []
